@@ -553,12 +553,15 @@ func ruleClassGate(c *report.Ctx) {
 	// class value = extract #0 of GetScriptInfo
 	isClassAtom := func(a an.Atom) bool {
 		check := func(x an.Atom) bool {
-			cond := x.Cond
-			b, ok := cond.(*ssa.BinOp)
-			if !ok || b.Op != token.EQL || !x.Pol {
+			// normalised form (also for atoms imported from a predicate helper, whose parameter was replaced by the argument)
+			if x.Op != token.EQL || x.X == nil || x.Y == nil {
 				return false
 			}
-			ex, ok := b.X.(*ssa.Extract)
+			cls, kv := x.X, x.Y
+			if _, isK := cls.(*ssa.Const); isK {
+				cls, kv = kv, cls
+			}
+			ex, ok := cls.(*ssa.Extract)
 			if !ok {
 				return false
 			}
@@ -566,7 +569,7 @@ func ruleClassGate(c *report.Ctx) {
 			if !ok || call.Call.StaticCallee() != gsi || ex.Index != 0 {
 				return false
 			}
-			k, ok := b.Y.(*ssa.Const)
+			k, ok := kv.(*ssa.Const)
 			return ok && k.Value != nil && supported[k.Value.ExactString()]
 		}
 		if len(a.Or) > 0 {
